@@ -140,6 +140,8 @@ impl StdError for TomlError {
     }
 }
 
+#[cfg_attr(kani, kani::requires(verif_kani_error::pre(input, index)))]
+#[cfg_attr(kani, kani::ensures(|r: &(usize, usize)| verif_kani_error::post(input, index, *r)))]
 fn translate_position(input: &[u8], index: usize) -> (usize, usize) {
     if input.is_empty() {
         return (0, index);
